@@ -77,7 +77,7 @@ class Repeater:
             True if the attr was found and deleted, False if it was undefined
         """
         rtn: bool = key in self.__attrs.keys()
-        del self.__attrs[key]
+        self.__attrs.pop(key, None)
         return rtn
 
     def repeater_target_address(self) -> ADDRESS_TYPE:
